@@ -83,12 +83,12 @@ CHECKS = {
         note="Moves between two grammar-matching names of which only one is in the window are not judged."),
     "C16": dict(
         level="model_checking", design_ref="DESIGN.md §2 C16",
-        technique="explicit-state BFS with canonical states over the real ringbuffer handler on real files; invariants on every transition; restored states cross-checked by full replays",
-        text="BFS from the empty ringbuffer under 12/35 limit configurations to a state/depth cap (reported); every transition checks deletion legitimacy, order and accounting.",
+        technique="explicit-state BFS with canonical states over the real ringbuffer handler on real files; invariants on every transition; restored states cross-checked by full replays; the observer restart runs the real _restart/_verify_ringbuffer_files with a creation scheduled at each call boundary of the verification thread",
+        text="BFS from the empty ringbuffer under 12/35 limit configurations to a state/depth cap (reported); every transition checks deletion legitimacy, order and accounting; the restart is a two-thread schedule with preemption bound 1 (one creation against one verification).",
         note="Equal canonical states have equal futures (no other mutable handler state); capped runs are reported as not exhaustive with the cap."),
     "C17": dict(
         level="model_checking", design_ref="DESIGN.md §2 C17",
-        technique="exhaustive permutation of event histories x handler dispatch orders on the real mirror handlers with intercepted FS operations; invariants at every operation boundary and simulated crash at every boundary in move mode",
+        technique="exhaustive permutation of event histories x handler dispatch orders on the real mirror handlers with intercepted FS operations; invariants at every operation boundary and simulated crash at every boundary in move mode, each followed by a restarted mirror that is told about every file again",
         text="All permutations of the creation events (x perturbations x handler orders) are executed; crash points are enumerated over every boundary of selected histories.",
         note="One recording shape; crash = exception at an operation boundary; source and destination on one file system."),
     "C18": dict(
